@@ -1,20 +1,20 @@
 #!/bin/sh
 # Must-fail corpus: every mutant must make the named property's check exit 1.
-# usage: selftest/run.sh [pattern]
-export GOFLAGS=-mod=mod GOPROXY=off GOSUMDB=off GOTOOLCHAIN=local
+# usage: selftest/run.sh [pattern] ; SELFTEST_JOBS=n runs n mutants at a time
+export GOFLAGS=-mod=mod GOPROXY=off GOSUMDB=off GOTOOLCHAIN=local VC_RETRY=${VC_RETRY:-30}
 cd /verif
-S=/tmp/verif-selftest.$$
-fail=0
-for d in selftest/mutants/${1:-*}.diff; do
-  [ -f "$d" ] || continue
+one() {
+  d=$1
+  S=$(mktemp -d /tmp/verif-selftest.XXXXXX)
   prop=$(basename "$d" | cut -d_ -f1)
-  rm -rf "$S"; mkdir -p "$S/repo" "$S/verif"
+  mkdir -p "$S/repo" "$S/verif"
   rsync -a --exclude .git /repo/ "$S/repo/"
   cp KNOWN_FINDINGS.txt "$S/verif/"
-  if ! (cd "$S/repo" && patch -p1 -s < "/verif/$d"); then echo "PATCH-FAILED $d"; fail=1; continue; fi
+  if ! (cd "$S/repo" && patch -p1 -s < "/verif/$d"); then echo "PATCH-FAILED $d"; rm -rf "$S"; return 1; fi
   out=$(./bin/vc check -prop "$prop" -repo "$S/repo" -verif "$S/verif" 2>&1); rc=$?
-  if [ $rc -eq 1 ]; then echo "caught   $d: $(echo "$out" | grep -c '^VIOLATION') violation(s): $(echo "$out" | grep '^VIOLATION' | head -1 | sed 's/.*obligation=//')"
-  else echo "MISSED   $d (rc=$rc)"; echo "$out" | tail -3; fail=1; fi
-done
-rm -rf "$S"
-exit $fail
+  rm -rf "$S"
+  if [ $rc -eq 1 ]; then echo "caught   $d: $(echo "$out" | grep -c '^VIOLATION') violation(s): $(echo "$out" | grep '^VIOLATION' | head -1 | sed 's/.*obligation=//')"; return 0
+  else echo "MISSED   $d (rc=$rc)"; echo "$out" | tail -3; return 1; fi
+}
+if [ "$1" = "--one" ]; then one "$2"; exit $?; fi
+ls selftest/mutants/${1:-*}.diff 2>/dev/null | xargs -P ${SELFTEST_JOBS:-1} -n 1 sh selftest/run.sh --one
